@@ -97,6 +97,24 @@ def run(pid, tier, replay=None):
         for f, idx, ev in bad:
             ck.violation("fault:%s:%s:%s" % (ev["fam"], ev["op"], classify(ev)),
                          {"what": "TLC rejected the fault-injection run (FailureIsReported / FailureIsAtomic / RetrySucceeds / NoLeak / LedgerOK)", "event": ev})
+    # lifecycle: heap constructors under a failing request, whole-object swaps, destruction with a counting destructor
+    lexe = vlib.cc_build(sc.path("life_h"), [os.path.join(vlib.HARNESS, "life_h.c")] + vlib.repo_src("vec.c", "buf.c", "que.c", "str.c", "utf.c", "a.c"), sc)
+    lpath = sc.path("life.ndjson")
+    lr = vlib.run_harness([lexe, lpath], timeout=600)
+    lm = re.search(r"^SUMMARY (\{.*\})$", lr.stdout or "", re.M)
+    if lr.returncode != 0 or not lm:
+        if lr.returncode in (97, 98, 99, -6, -11) or "runtime error" in (lr.stderr or "") or "Sanitizer" in (lr.stderr or ""):
+            ck.violation("crash:life", {"what": "sanitizer abort in a heap constructor / destructor / whole-object swap", "stderr": (lr.stderr or "")[-1500:]})
+        else:
+            raise Broken("lifecycle harness failed rc=%s: %s" % (lr.returncode, (lr.stderr or "")[-1500:]))
+    else:
+        ln, lbad = vlib.validate_collect(os.path.join(adir, "AllocTrace.tla"), os.path.join(adir, "AllocTrace.cfg"), [lpath], sc)
+        for f, idx, ev in lbad:
+            ck.violation("life:%s:%s" % (ev.get("fam"), "null" if ev.get("null") else "swap-or-destroy"),
+                         {"what": "TLC rejected a lifecycle run: failing constructor not reported / something left behind, swap did not exchange the contents, destructor not handed every owned element once, or the ledger not empty", "event": ev})
+        ck.cov["traces_validated_against_impl"] += ln
+        total_runs += json.loads(lm.group(1))["events"]
+        ck.part("lifecycle_runs", events=json.loads(lm.group(1))["events"], accepted=ln)
     ck.cov["evaluations"] = total_runs
     ck.cov["distinct_nontrivial"] = len(nontrivial)
     ck.part("faulted_runs_by_operation", **dict(sorted(byop.items())))
